@@ -18,7 +18,9 @@
                  the pinned source reads it as 1 s + 123456789 ns), and -0.5 stays the float -0.5 (the pinned
                  source returns Timestamp(0, 500000000) = +0.5)                (fixes/C04-om-timestamp-exponent.diff)
      fix_sname   _parse_sample: a non-empty name in front of the braces must be a legacy name (the pinned source
-                 records ' a' verbatim, which cannot be exposed and parsed again)  (fixes/C04-om-sample-name.diff)  *)
+                 records ' a' verbatim, which cannot be exposed and parsed again)  (fixes/C04-om-sample-name.diff)
+   Repaired without a flag: the duplicate set of a group is emptied when the group's timestamp changes
+   (fixes/C15-om-later-exposure.diff); om_group_step is the repaired step, om_group_step_orig the pinned one.  *)
 From V Require Import lib.PyBase lib.PyStr model.Validation model.Expo model.TextParser.
 Open Scope N_scope.
 
@@ -935,8 +937,46 @@ Section OMParser.
       Ok (om_new_family st seen' cand (Some OM_unknown) [os_name sample], out)
     else Ok (st, []).
 
-  (* group / timestamp bookkeeping and duplicate suppression (source lines 609-629) *)
+  (* group / timestamp bookkeeping and duplicate suppression (source lines 609-632).
+     Repaired source (fixes/C15-om-later-exposure.diff): the duplicate set describes the CURRENT timestamp of the group
+     only - it is emptied when the timestamp of the sample differs from the group's.  om_group_step_orig below is the
+     pinned step, which emptied it on a group change only: at a later timestamp of the same group every series but the
+     first was dropped as a duplicate before _check_histogram ran. *)
   Definition om_group_step (st1 : om_st) (name : str) (sample : om_sample) : res om_st :=
+    let typ := st_typ st1 in
+    let typs := match typ with Some t => t | None => [] end in
+    do go <- om_group_for_sample sample name typs;
+    do gd <- (match go with Some d => Ok d | None => Err AttributeError end);
+    let g := sort_kv gd in
+    let has_group := match st_group st1 with Some _ => true | None => false end in
+    let same_group := match st_group st1 with Some g0 => om_kvs_eqb g g0 | None => false end in
+    if has_group && negb same_group && om_mem_kvs g (st_seen_groups st1) then Err ValueError else
+    do gts_samples <-
+       (if same_group then
+          if negb (Bool.eqb (match os_ts sample with None => true | _ => false end)
+                            (match st_gts st1 with None => true | _ => false end))
+          then Err ValueError else
+          match st_gts st1, os_ts sample with
+          | Some a, Some b =>
+              do gt <- om_ts_gt a b;
+              if gt && negb (om_typ_is typ OM_info) then Err ValueError else Ok (st_gts_samples st1)
+          | Some _, None => Err TypeError
+          | None, _ => Ok (st_gts_samples st1)
+          end
+        else Ok []);
+    do labels <- om_labels_of sample;
+    let gts_samples := if negb (om_ts_eqb (os_ts sample) (st_gts st1)) then [] else gts_samples in
+    let sid := (os_name sample, sort_kv labels) in
+    let samples' :=
+      if negb (om_ts_eqb (os_ts sample) (st_gts st1)) || negb (om_mem_sid sid gts_samples)
+      then sample :: st_samples st1 else st_samples st1 in
+    Ok {| st_name := st_name st1; st_allowed := st_allowed st1; st_eof := st_eof st1;
+          st_seen := st_seen st1; st_typ := st_typ st1; st_doc := st_doc st1; st_unit := st_unit st1;
+          st_group := Some g; st_seen_groups := g :: st_seen_groups st1; st_gts := os_ts sample;
+          st_gts_samples := sid :: gts_samples; st_samples := samples' |}.
+
+  (* the pinned step: the duplicate set survives a change of timestamp inside the group *)
+  Definition om_group_step_orig (st1 : om_st) (name : str) (sample : om_sample) : res om_st :=
     let typ := st_typ st1 in
     let typs := match typ with Some t => t | None => [] end in
     do go <- om_group_for_sample sample name typs;
